@@ -116,7 +116,7 @@ class ExitOnlyLoop:
         I.ctx.site_obligs.append(("decode.loop_frame.exit_values_do_not_depend_on_the_loop_body", not (reads & assigned), len(I.ctx.pc)))
         after = {"checksum_passed"}
         I.ctx.site_obligs.append(("decode.loop_frame.only_checksum_passed_and_the_message_leave_the_loop",
-                                  (assigned - {"m", "toks", "tag", "value", "cheksum_base", "checksum", "ctx", "current_context"}) <= after,
+                                  (assigned - {"m", "toks", "tag", "value", "cheksum_base", "checksum", "ctx", "current_context", "i"}) <= after,
                                   len(I.ctx.pc)))
         from pyvc.core import PathCut
         exits = list(range(len(rets))) + ["fall_through"]
@@ -157,10 +157,22 @@ def contract_skip_len(I, args, kwargs):
     return r
 
 
+def contract_is_number(I, args, kwargs):
+    """_is_number by the contract proved in task _is_number: true exactly for 1..18 ASCII digits, and then int() takes the
+    text (and gives a non-negative number)."""
+    text = args[-1]
+    b = I.ctx.fresh_bool("is_number")
+    ok = z3.Function("int_ok", z3.StringSort(), z3.BoolSort())
+    val = z3.Function("int_val", z3.StringSort(), z3.IntSort())
+    I.ctx.assume(SBool(b.t == z3.InRe(_t(text), z3.Loop(z3.Range("0", "9"), 1, 18))))
+    I.ctx.assume(SBool(z3.Implies(b.t, z3.And(ok(_t(text)), val(_t(text)) >= 0))))
+    return b
+
+
 def decode_cfg_for(which):
     def f():
         c = Config()
-        c.int_model = "lexical"
+        c.contracts[CODEC + "._is_number"] = contract_is_number
         c.contracts[CODEC + "._skip_len"] = contract_skip_len
         c.loop_rules[(CODEC + ".decode", 0)] = ExitOnlyLoop(which)
         return c
